@@ -129,6 +129,11 @@ func (b *builder) genType(c tctx) *T {
 		arg := b.genType(c)
 		if len(b.t.Deps) > 0 && b.chance(0.5) {
 			d := b.t.Deps[b.rng.Intn(len(b.t.Deps))]
+			if d.GenAlias != "" && b.chance(0.4) {
+				// generic alias over an unnamed type, with a named type of another package as argument
+				o := b.t.Deps[b.rng.Intn(len(b.t.Deps))]
+				return &T{Kind: KPkg, Pkg: d, Name: d.GenAlias, Args: []*T{pkgT(o, o.Struct)}}
+			}
 			return &T{Kind: KPkg, Pkg: d, Name: d.Gen, Args: []*T{arg}}
 		}
 		return &T{Kind: KLocal, Name: b.t.Locals.Gen, Args: []*T{arg}}
@@ -567,6 +572,11 @@ func (b *builder) addFixed() {
 	mk("FxPager",
 		Method{Name: "WritePage", Params: []Param{{"no", basic("uint64")}, {"page", &T{Kind: KArray, ArrLen: "256", Elem: basic("uint64")}}}},
 		Method{Name: "ReadPage", Params: []Param{{"no", basic("uint64")}}, Results: []Param{{"", &T{Kind: KArray, ArrLen: "256", Elem: basic("uint64")}}, {"", er}}})
+	// aliases and defined types over an instantiated generic interface (not generic themselves)
+	t.Ifaces = append(t.Ifaces, &Iface{Name: "FxInstAlias", File: file, Exportable: true, IsAlias: true, AliasOf: t.Locals.GenStore + "[" + t.Locals.Key + ", bool]", Tags: []string{"fixed"},
+		Methods: []Method{{Name: "Load"}, {Name: "Store"}}})
+	t.Ifaces = append(t.Ifaces, &Iface{Name: "FxInstDefined", File: file, Exportable: true, IsDefined: true, AliasOf: t.Locals.GenStore + "[string, *" + t.Locals.Struct + "]", Tags: []string{"fixed"},
+		Methods: []Method{{Name: "Load"}, {Name: "Store"}}})
 	mk("FxEmpty")
 	mk("FxMarker")
 	mk("FxSingle",
@@ -599,7 +609,7 @@ func (b *builder) genTParams(i *Iface) {
 	for k := 0; k < n; k++ {
 		tp := TParam{Name: names[perm[k]], CKind: "any"}
 		kinds := []string{"any", "any", "method", "union", "depunion", "depmethod", "ordered", "stdmethod"}
-		hard := []string{"comparable", "tildeSliceOf", "hybrid"}
+		hard := []string{"comparable", "tildeSliceOf", "hybrid", "fbound"}
 		if b.hz.UnionNamedTerm {
 			hard = append(hard, "namedunion")
 		}
@@ -640,6 +650,10 @@ func (b *builder) genTParams(i *Iface) {
 			}
 			tp.Constraint = &T{Kind: KIface, Embeds: []*T{{Kind: KBasic, Name: "~[]" + i.TParams[k-1].Name}}}
 			i.NeedsSkipEnsure = true
+		case "fbound":
+			// a constraint that mentions the parameter it constrains
+			tp.Constraint = &T{Kind: KIface, Methods: []IMethod{{Name: "Less", Params: []*T{{Kind: KTParam, Name: tp.Name}}, Results: []*T{basic("bool")}}}}
+			i.NeedsSkipEnsure = true
 		case "hybrid":
 			tp.Constraint = &T{Kind: KIface, Embeds: []*T{basic("~int")}, Methods: []IMethod{{Name: "String", Results: []*T{basic("string")}}}}
 			tp.Comparable = true
@@ -657,6 +671,8 @@ func (b *builder) genTParams(i *Iface) {
 				tp.Arg = ptr(local(l.Struct))
 			}
 		case "method", "stdmethod", "hybrid", "namedunion":
+			tp.Arg = local(l.Key)
+		case "fbound":
 			tp.Arg = local(l.Key)
 		case "union", "ordered":
 			tp.Arg = basic("int")
